@@ -234,8 +234,11 @@ C02Post ==
            ELSE after = {[t |-> SetMax(S), v |-> Agg(cfg.method, KnownPost(b, SetMax(S)))]}
 
 \* no value is ever invented from an empty set of known finer values
+\* (stated on the post-state, hence only for steps with one destination archive: in a
+\* multi-destination batch a later direct write may overwrite the finer slot an aggregate
+\* was computed from)
 NoInvented ==
-  IsWrite =>
+  (IsWrite /\ SingleDest) =>
     \A b \in 2..KK : \A s \in Content(ring'[b]) \ Content(ring[b]) :
       (\A i \in Routed : Dest(i) # b \/ AlignedAt(b, i) # s.t) =>
          Len(Known(cfg, b - 1, ring'[b - 1], s.t, RatioOf(b))) >= 1
